@@ -232,3 +232,13 @@ func ReplayMain(t *testing.T, table map[string]func()) {
 
 // Thorough reports whether the check runs in the thorough tier (larger bounds).
 func Thorough() bool { return os.Getenv("VERIF_TIER") == "thorough" }
+
+// TempDir returns a fresh scratch directory (natively); a fixed name under the symbolic executor,
+// where every file-system call is a stub.
+func TempDir() string {
+	d, err := os.MkdirTemp("", "zzverif")
+	if err != nil {
+		panic(err)
+	}
+	return d
+}
